@@ -35,6 +35,9 @@ class G:
     def ent(self):
         if self.stale and self.r.random() < 0.1:
             return self.r.choice(self.ents + [9])   # 9 is never spawned
+        # hot entities: most operations hit the first two entities so that several reactors share a key
+        if self.r.random() < 0.6:
+            return self.r.choice(self.ents[:2])
         return self.r.choice(self.ents)
     def target(self):
         """a system to run / message"""
@@ -44,7 +47,7 @@ class G:
         if self.xsys and self.r.random() < 0.1: c += list(self.xsys.values())
         return self.r.choice(c)
     def ty(self):
-        return self.r.choice(TYPES) if self.r.random() < 0.35 else 0
+        return self.r.choice(TYPES) if self.r.random() < 0.3 else 0
 
     # ---- bundles
     def trigger(self, kinds=None):
@@ -147,10 +150,34 @@ class G:
             return [f'xrr:{xi}:[' + ','.join(ts) + ']']
         raise AssertionError(k)
 
+    def burst(self):
+        """2-4 deliveries of related kinds in a row (several events pending for one system, several removals
+        between two polls, several reactors hit by one key)"""
+        r = self.r
+        k = r.choice(['sev', 'bc', 'ee', 'rm', 'mix', 'runs', 'insrm'])
+        n = r.randint(2, 4)
+        if k == 'sev':
+            t = self.target(); return [f'sev:{t}:{self.ty()}:{self.p()}' for _ in range(n)]
+        if k == 'bc': return [f'bc:{self.ty()}:{self.p()}' for _ in range(n)]
+        if k == 'ee':
+            e = self.ent(); return [f'ee:{self.ty()}:{e}:{self.p()}' for _ in range(n)]
+        if k == 'rm':
+            c = self.ty(); return [f'rm:{c}:{e}' for e in r.sample(self.ents, min(n, len(self.ents)))]
+        if k == 'runs':
+            t = self.target(); u = self.target(); return [f'run:{t}', f'sev:{u}:0:{self.p()}', f'sev:{u}:0:{self.p()}', f'sev:{t}:0:{self.p()}'][:n + 1]
+        if k == 'insrm':
+            c = self.ty(); e = self.ent(); return [f'ins:{c}:{e}:1', f'rm:{c}:{e}', f'ins:{c}:{e}:2', f'rm:{c}:{e}'][:n]
+        t = self.target()
+        out = []
+        for _ in range(n):
+            out += r.choice([[f'sev:{t}:{self.ty()}:{self.p()}'], [f'bc:{self.ty()}:{self.p()}'], [f'ee:{self.ty()}:{self.ent()}:{self.p()}'], [f'run:{t}'], [f'mut:0:{self.ent()}:{r.randint(0,2)}']])
+        return out
+
     def actions(self, lo, hi):
         out = []
         for _ in range(self.r.randint(lo, hi)):
-            out += self.action()
+            if self.r.random() < 0.18: out += self.burst()
+            else: out += self.action()
         return spawn_first(out)
 
     def build(self, name):
